@@ -99,9 +99,8 @@ def int_binop(ex, op, a, b):
             # two symbolic bytes: a named byte, known to the solver as the value of a commutative
             # uninterpreted function of the operands (an abstraction of XOR: sound, and with the
             # normal form above nothing else is needed; no int2bv/bv2int terms enter the path condition)
-            x, y = sorted((a.t, b.t), key=lambda t: t.get_id())
             c = z3.Int(ex.fresh_name('xor'))
-            ex.add_def(c == _XOR8(x, y))
+            ex.add_def(z3.And(c == _XOR8(a.t, b.t), c == _XOR8(b.t, a.t)))  # both orders: commutativity
             ex.add_def(z3.And(c >= 0, c <= 255))
             r = Sym(c, 'int')
         else:
@@ -192,3 +191,177 @@ from . import vcgen as _V  # noqa: E402
 
 if not hasattr(_V.verify, '__wrapped__'):
     _V.verify = _in_fat_frame(_V.verify)
+
+
+# ---------------------------------------------------------------------------
+# 2. x % c with a constant c > 0: the constant the path condition proves it to be
+# ---------------------------------------------------------------------------
+_xor_int_binop = M.int_binop
+
+
+def _const_part(t):
+    t = z3.simplify(t)
+    if z3.is_int_value(t):
+        return t.as_long()
+    if z3.is_app(t) and t.decl().kind() == z3.Z3_OP_ADD:
+        return sum(c.as_long() for c in t.children() if z3.is_int_value(c))
+    return 0
+
+
+def int_binop2(ex, op, a, b):
+    r = _xor_int_binop(ex, op, a, b)
+    if type(op) is ast.Mod and isinstance(r, Sym) and isinstance(b, int) and not isinstance(b, bool) and b > 0 and isinstance(a, Sym) and not ex.quant:
+        cand = _const_part(a.t) % b
+        if ex.proves(a.t % b == cand):
+            return cand
+    return r
+
+
+M.int_binop = int_binop2
+
+# ---------------------------------------------------------------------------
+# 3. slices of strings of symbolic length
+# ---------------------------------------------------------------------------
+_orig_slice_of = M.slice_of
+MAX_MATERIALISE = 64
+
+
+def slice_of(ex, o, sl):
+    if not (isinstance(o, Sym) and o.k == 'bytes') or ex.quant or M.plain(sl.step) not in (None, 1):
+        return _orig_slice_of(ex, o, sl)
+    if conc_int(z3.Length(o.t)) is not None:
+        return _orig_slice_of(ex, o, sl)
+    slices = ex.__dict__.setdefault('slice_info', {})
+    info = slices.get(o.t.get_id())
+    n = mk_int(info[2]) if info is not None else mk_int(z3.Length(o.t))
+    lo, ln = M.slice_bounds(ex, sl, n)  # clamped: 0 <= lo, 0 <= ln, lo + ln <= n whenever n >= 0
+    if info is not None:
+        base, lo = info[0], z3.simplify(info[1] + lo)  # a slice of an (in-bounds) slice is a slice of the base
+    else:
+        base = o.t
+    # a slice that lies inside the first part X of a concatenation X ++ rest is a slice of X
+    while z3.is_app(base) and base.decl().kind() == z3.Z3_OP_SEQ_CONCAT:
+        first = base.arg(0)
+        over = conc_int(z3.simplify(lo + ln - z3.Length(first)))
+        if over is None or over > 0:
+            break
+        base = first
+    t = z3.simplify(z3.Extract(base, lo, ln))
+    if conc_int(z3.Length(t)) is not None:
+        return mk_bytes(t)  # the simplifier resolved it (literal / concatenation of units)
+    cl = conc_int(ln)
+    if cl is not None and cl <= MAX_MATERIALISE:
+        if cl == 0:
+            return b''
+        units = [z3.Unit(zint(M.read_byte(ex, base, z3.simplify(lo + j)))) for j in range(cl)]
+        r = Sym(units[0] if cl == 1 else z3.Concat(*units), 'bytes')
+        ex.add_def(t == r.t)  # definition of the named bytes as a string
+        return r
+    if t.get_id() != base.get_id():
+        if t.get_id() not in slices:
+            slices[t.get_id()] = (base, lo, ln)
+            ex.keep.append(t)
+            ex.add_def(z3.Length(t) == ln)
+    return Sym(t, 'bytes')
+
+
+M.slice_of = slice_of
+
+from . import engine as _E  # noqa: E402
+
+_orig_length = _E.Path.length
+
+
+def length(self, v):
+    if isinstance(v, Sym) and v.k == 'bytes':
+        info = self.__dict__.get('slice_info', {}).get(v.t.get_id())
+        if info is not None:
+            return mk_int(info[2])
+    return _orig_length(self, v)
+
+
+_E.Path.length = length
+
+
+# ---------------------------------------------------------------------------
+# 4. recursively defined spec functions (bytes-valued, fixed result length)
+# ---------------------------------------------------------------------------
+class Rec:
+    """f(*args) = base(*args) if stop(*args) else step(*args, f)  with a measure that is >= 0 and
+    strictly smaller at every inner application (checked at each unfolding: the definition is
+    well-founded, so the function exists and is unique: adding instances of its defining equation is a
+    conservative extension, never an assumption about the program).
+
+    Natively: the recursive Python function.  Symbolically: an uninterpreted function `rec_<name>`
+    (result: `n` bytes); at an application whose arguments the path condition decides to be in the
+    base case the value is `base(*args)`, in the step case it is `step(*args, f)` with the inner
+    applications unfolded up to `depth` levels; otherwise the application stays folded."""
+
+    def __init__(self, name, n, stop, base, step, measure, depth=1):
+        self.name, self.n, self.stop, self.base, self.step, self.measure, self.depth = name, n, stop, base, step, measure, depth
+        self.__name__ = name
+        self.__module__ = stop.__module__
+        self._funcs = {}
+        M.NATIVE_MODELS[self] = lambda ex, *a, **k: self._symbolic(ex, a, k)
+
+    def __hash__(self):
+        return id(self)
+
+    def __eq__(self, other):
+        return self is other
+
+    def __call__(self, *args):
+        if self.stop(*args):
+            return self.base(*args)
+        return self.step(*args, self)
+
+    def _symbolic(self, ex, args, kwargs):
+        if kwargs:
+            raise Unsupported('keyword arguments of a recursive spec function')
+        return self._apply(ex, list(args), self.depth)
+
+    def _f(self, ex, which):
+        f = self._funcs.get(which)
+        if f is None:
+            f = self._funcs[which] = ex.cfg.spec_func(getattr(self, which))
+        return f
+
+    def _apply(self, ex, args, fuel):
+        from .values import Builtin
+
+        ex.spec_mode += 1
+        try:
+            folded = q_ufb(ex, ['rec_' + self.name, self.n] + list(args), {})
+            if fuel <= 0 or ex.quant:
+                return folded
+            done = ex.__dict__.setdefault('rec_unfolded', {})
+            key = (self.name, folded.t.get_id())
+            if key in done:
+                return done[key]
+            c = ex.truth(ex.call(self._f(ex, 'stop'), list(args), {}))
+            ct = z3.BoolVal(c) if isinstance(c, bool) else z3.simplify(c.t)
+            syntactic = z3.is_true(ct) or z3.is_false(ct)  # decided without the path condition: costs no fuel
+            if z3.is_true(ct) or (not z3.is_false(ct) and ex.proves(ct)):
+                val = ex.call(self._f(ex, 'base'), list(args), {})
+            elif z3.is_false(ct) or ex.proves(z3.Not(ct)):
+                m0 = ex.call(self._f(ex, 'measure'), list(args), {})
+
+                def inner(ex_, a, k):
+                    m1 = ex_.call(self._f(ex_, 'measure'), list(a), {})
+                    if not ex_.proves(z3.And(zint(m1) >= 0, zint(m1) < zint(m0))):
+                        raise Unsupported(f'recursive spec function {self.name}: measure not provably decreasing')
+                    return self._apply(ex_, list(a), fuel if syntactic else fuel - 1)
+
+                val = ex.call(self._f(ex, 'step'), list(args) + [Builtin(self.name, inner)], {})
+            else:
+                return folded
+            # the instance of the defining equation for these arguments
+            ex.add_def(folded.t == zbytes(ex.as_bytes_value(val)))
+            done[key] = val
+            return val
+        finally:
+            ex.spec_mode -= 1
+
+
+def recursive(name, n, stop, base, step, measure, depth=1):
+    return Rec(name, n, stop, base, step, measure, depth)
